@@ -112,7 +112,7 @@ def norm_top(p, t, v):
     return v
 
 
-def gen_case(rng, p, fn, sc, op, transport, workers, idx, thorough, stomp_unsub):
+def gen_case(rng, p, fn, sc, op, transport, workers, idx, thorough, stomp_unsub, force=None):
     """returns the experiment description (items with model-level values; frames are crafted later)"""
     nvars = len(sc["vars"])
     vars_ = ["u%d%s" % (idx, rng.choice(["", "x", "-y"])) for _ in range(nvars)]
@@ -121,13 +121,17 @@ def gen_case(rng, p, fn, sc, op, transport, workers, idx, thorough, stomp_unsub)
         patterns = ["plain", "plain", "hold", "herr"]
     pattern = patterns[idx % len(patterns)] if idx < 2 * len(patterns) else rng.choice(patterns)
     n = rng.randrange(3, 16 if thorough else 10)
+    if force:
+        pattern, n = force
     if pattern in ("plain", "unsub_busy") and rng.random() < (0.15 if pattern == "plain" else 0.4):
         n = rng.randrange(70, 100) if transport == "nats" else rng.randrange(20, 40)      # more than the queue holds
     other_ops = [o["name"] for o in sc["ops"] if o["name"] != op["name"]] or ["Nope"]
     items = []
     for j in range(n):
         r = rng.random()
-        if r < 0.5:
+        if force and r < 0.8:
+            kind = "valid"
+        elif r < 0.5:
             kind = "valid"
         elif r < 0.62:
             kind = "foreign_raw"
@@ -152,7 +156,8 @@ def gen_case(rng, p, fn, sc, op, transport, workers, idx, thorough, stomp_unsub)
     if not any(it["kind"] == "valid" for it in items):
         items[rng.randrange(len(items))]["kind"] = "valid"
     return {"transport": transport, "workers": workers if transport == "nats" else 1, "fn": fn, "scope": sc["name"],
-            "op": op["name"], "type": op["type"], "vars": vars_, "pattern": pattern, "items": items, "idx": idx}
+            "op": op["name"], "type": op["type"], "vars": vars_, "pattern": pattern, "items": items, "idx": idx,
+            "forced": bool(force)}
 
 
 def build_script(rng, case, frames, topic):
@@ -172,7 +177,7 @@ def build_script(rng, case, frames, topic):
         unsub_at = rng.randrange(1, len(case["items"]) + 1)
         if pattern == "unsub_busy" and valid_idx:
             unsub_at = max(unsub_at, valid_idx[0] + 1)
-            if len(case["items"]) > 16 and rng.random() < 0.7:
+            if len(case["items"]) > 16 and (rng.random() < 0.7 or case.get("forced")):
                 unsub_at = len(case["items"]) - rng.randrange(0, 3)
     other_ops = [o for o in case["other_ops"]]
     nvalid_before = 0
@@ -365,11 +370,20 @@ def run_program(ctx, prog, lab_id, ncases, stats, jcases, jmeta, thorough, stomp
         types = lb.run([{"op": "types"}])[0]
         ops = [(fn, sc, op) for fn in prog["order"] for sc in prog["files"][fn]["scopes"] for op in sc["ops"]]
         cases = []
+        # always present: Unsubscribe while the handler runs with a few / more than cap(sub.C) / more than
+        # cap(workC) messages behind it, and a short frame in front of valid ones for a single worker
+        forced = [("stomp", 1, ("unsub_busy", 6)), ("stomp", 1, ("unsub_busy", 12)), ("stomp", 1, ("unsub_busy", 9)),
+                  ("stomp", 1, ("unsub_busy", 14)), ("stomp", 1, ("unsub_busy", 30)), ("stomp", 1, ("unsub_busy", 40)),
+                  ("nats", 1, ("unsub_busy", 80)), ("nats", 2, ("unsub_busy", 12)), ("nats", 1, ("plain", 90)),
+                  ("stomp", 1, ("plain", 40))]
         for i in range(ncases):
             fn, sc, op = ops[i % len(ops)]
             transport = "stomp" if i % 3 == 2 else "nats"
             workers = [1, 2, 1, 3, 4][i % 5]
-            c = gen_case(rng, prog, fn, sc, op, transport, workers, len(jcases) * 1000 + i, thorough, stomp_unsub)
+            force = None
+            if i < len(forced):
+                transport, workers, force = forced[i]
+            c = gen_case(rng, prog, fn, sc, op, transport, workers, len(jcases) * 1000 + i, thorough, stomp_unsub, force)
             c.update({"prog": prog, "names": names, "key": scope_key(fn, sc),
                       "other_ops": [o["name"] for o in sc["ops"] if o["name"] != op["name"]] or ["Nope"]})
             if c["key"] not in (types.get("scopes") or []):
@@ -426,7 +440,7 @@ def run(ctx, br):
     jcases, jmeta = [], []
     tag = "c07_%d" % (ctx.seed % 100000)
     stomp_unsub = True
-    plan = [("small", 24), ("small", 24)] if quick else [(("small", "medium")[i % 2], 60) for i in range(8)]
+    plan = [("small", 36), ("small", 36)] if quick else [(("small", "medium")[i % 2], 90) for i in range(10)]
     nprog = 0
     for i, (size, ncases) in enumerate(plan):
         prog = None
